@@ -31,7 +31,7 @@ from harness.lib.coqio import C, Some, coq_string
 from harness.lib.values import DOMAIN, LITERALS, NAN, same, val_json, val_to_coq, val_unjson, vals_to_coq
 
 LEVEL = "proof"
-THEOREMS = ["C12_compile_correct", "C12_compile_total", "C12_conj", "C12_api_agree", "C12_api_sql", "C12_refused_raises",
+THEOREMS = ["C12_compile_correct", "C12_compile_total", "C12_conj", "C12_api_agree", "C12_api_sql", "C12_typed_evaluates", "C12_refused_raises",
             "C12_strict", "C12_strict_everywhere", "C12_operator_faithful", "C12_operator_table", "C12_special_keys", "C12_project_after",
             "C12_api_agree_empty_projection_refuted"]
 GEN_FILES = ["GenFilter.v", "GenFilterConst.v", "GenPrune.v"]
@@ -872,10 +872,11 @@ def gen_model_cond(rng, kind: str, cross: float, malformed: float) -> Tuple:
         op = rng.choice(["in", "not_in", "not in", "notin"])
         n = rng.choice([0, 1, 1, 2, 3])
         vals = [None if rng.random() < 0.2 else lit() for _ in range(n)]
-        # is_in casts the value set between numeric / bool / temporal kinds instead of refusing (oracle X):
-        # keep same-kind elements, and cross-kind ones only when a string is involved (always refused)
+        # is_in CASTS the value set to the column type instead of refusing (numeric <-> bool <-> temporal, and even
+        # numeric-looking strings: '123' -> 123): that is oracle X / E territory, explored by `prims` and judged by
+        # cross-API agreement in the e2e oracle.  The concrete E0 / X0 instance is exact for same-kind sets only.
         k = sqlref.COLKIND[kind]
-        vals = [v for v in vals if v is None or sqlref.pykind(v) == k or "str" in (k, sqlref.pykind(v))]
+        vals = [v for v in vals if v is None or sqlref.pykind(v) == k]
         return ("pair", ("str", rand_case(rng, op)), ("list" if len(vals) == 2 else rng.choice(["list", "tuple"]), vals))
     if r < 0.9:
         return ("pair", ("str", rand_case(rng, "between")), (rng.choice(["list", "tuple"]), [lit(), lit()]))
